@@ -200,29 +200,30 @@ type c20TrackerLine struct { // a finished tracker as printed by the progress wr
 }
 
 type c20SimRecord struct {
-	Result         c20ChildResult   `json:"result"`
-	ChildExit      int              `json:"child_exit"`
-	ChildTail      string           `json:"child_tail,omitempty"`
-	Crash          string           `json:"crash"`            // first line of a panic / fatal error of the child
-	CrashAt        string           `json:"crash_at"`         // first repository frame of its stack (file:line)
-	CrashInSummary bool             `json:"crash_in_summary"` // the stack goes through Group.ReportResults
-	WallMs         int64            `json:"wall_ms"`
-	Rows           []c20Row         `json:"rows"`
-	Sent           []c20Sent        `json:"sent"`
-	Checks         []c20Check       `json:"checks"` // only those whose (upkeep, block) occurs in a row
-	ChecksTotal    int              `json:"checks_total"`
-	Nodes          int              `json:"nodes"`
-	ConfigLoads    int              `json:"config_loads"` // "config loaded at" lines
-	BlocksSeen     int              `json:"blocks_seen"`  // distinct "next block" lines + genesis
-	SummaryEnd     bool             `json:"summary_end"`  // "================ end ================" printed
-	SummaryPanic   string           `json:"summary_panic,omitempty"`
-	Trackers       []c20TrackerLine `json:"trackers"`
-	FinalResults   int              `json:"final_results"` // "%d transmits returned in final results" (last)
-	SavedPlanOK    bool             `json:"saved_plan_ok"` // <out>/simulation_plan.json loads and equals the plan that ran
-	Races          int              `json:"races"`         // race reports (race build only), except the ignored ones
-	RaceSites      []string         `json:"race_sites"`    // "file:line ~ file:line" per counted report
-	RacesIgnored   []string         `json:"races_ignored"` // reports with BOTH accesses inside github.com/jedib0t/go-pretty (sites)
-	RaceBuild      bool             `json:"race_build"`
+	Result          c20ChildResult   `json:"result"`
+	ChildExit       int              `json:"child_exit"`
+	ChildTail       string           `json:"child_tail,omitempty"`
+	Crash           string           `json:"crash"`            // first line of a panic / fatal error of the child
+	CrashAt         string           `json:"crash_at"`         // first repository frame of its stack (file:line)
+	CrashInSummary  bool             `json:"crash_in_summary"` // the stack goes through Group.ReportResults
+	WallMs          int64            `json:"wall_ms"`
+	Rows            []c20Row         `json:"rows"`
+	Sent            []c20Sent        `json:"sent"`
+	Checks          []c20Check       `json:"checks"` // only those whose (upkeep, block) occurs in a row
+	ChecksTotal     int              `json:"checks_total"`
+	Nodes           int              `json:"nodes"`
+	ConfigLoads     int              `json:"config_loads"` // "config loaded at" lines
+	BlocksSeen      int              `json:"blocks_seen"`  // distinct "next block" lines + genesis
+	SummaryEnd      bool             `json:"summary_end"`  // "================ end ================" printed
+	SummaryPanic    string           `json:"summary_panic,omitempty"`
+	Trackers        []c20TrackerLine `json:"trackers"`
+	FinalResults    int              `json:"final_results"` // "%d transmits returned in final results" (last)
+	SavedPlanOK     bool             `json:"saved_plan_ok"` // <out>/simulation_plan.json loads and equals the plan that ran
+	Races           int              `json:"races"`         // race reports (race build only), except the ignored ones
+	RaceSites       []string         `json:"race_sites"`    // "file:line ~ file:line" per counted report
+	RacesIgnored    []string         `json:"races_ignored"` // reports with BOTH accesses inside github.com/jedib0t/go-pretty (sites)
+	RaceBuild       bool             `json:"race_build"`
+	TsanCheckFailed bool             `json:"tsan_check_failed"` // the race detector's runtime failed an internal check (after 3 attempts)
 }
 
 var (
@@ -241,7 +242,20 @@ func c20Shorten(full string, n int) string {
 }
 
 // c20RunSim runs one simulation in a child process and parses its record.
+// c20RunSim retries a child whose race-detector RUNTIME failed an internal check ("ThreadSanitizer: CHECK failed",
+// seen once in ~250 race-build children): that is a fault of the tool, not of the code under test.
 func c20RunSim(t *testing.T, planJSON []byte, exe string, raceBuild bool) c20SimRecord {
+	var rec c20SimRecord
+	for attempt := 0; attempt < 3; attempt++ {
+		rec = c20RunSimOnce(t, planJSON, exe, raceBuild)
+		if !rec.TsanCheckFailed {
+			break
+		}
+	}
+	return rec
+}
+
+func c20RunSimOnce(t *testing.T, planJSON []byte, exe string, raceBuild bool) c20SimRecord {
 	dir, err := os.MkdirTemp("", "c20sim")
 	if err != nil {
 		return c20SimRecord{Result: c20ChildResult{Stage: "harness", Err: err.Error()}}
@@ -266,6 +280,7 @@ func c20RunSim(t *testing.T, planJSON []byte, exe string, raceBuild bool) c20Sim
 		rec.ChildExit = -1
 	}
 	out := buf.String()
+	rec.TsanCheckFailed = strings.Contains(out, "ThreadSanitizer: CHECK failed")
 	rec.RaceSites, rec.RacesIgnored = []string{}, []string{}
 	for _, rep := range c20RaceReports(out) {
 		if rep.ignored {
